@@ -265,7 +265,7 @@ class HpcSubmitter:
                         submitted_jobs.append(job)
                         submitted_jobs_by_name.add(job.name)
                         blocked_jobs_by_name.pop(job.name, None)
-                    else:
+                    elif i == highest_index:
                         # Need to look at this job in the next round.
                         highest_index -= 1
                 if batch.is_ready_to_submit or len(submitted_jobs_by_name) == len(available_jobs):
